@@ -149,7 +149,10 @@ class Gen:
         if k < 0.90:
             if no_union:
                 return self.prim()
-            return opt(self.type(depth + 1, scope, no_union=True)) if r.random() < 0.5 else self.union(depth, scope)
+            if r.random() < 0.5:
+                inner = self.type(depth + 1, scope, no_union=True)
+                return opt(inner) if not (isinstance(strip(inner), Prim) and strip(inner).p == "none") else opt(Prim("int"))
+            return self.union(depth, scope)
         if scope and self.recursion and r.random() < 0.25:
             return self._rec_ref(scope)
         return self.object(depth, scope)
@@ -213,6 +216,28 @@ class Gen:
             o.class_aliaser = r.choice(["upper", "prefix"])
         if kind == "dataclass" and self.on("frozen", 0.1):
             o.frozen = True
+        if kind == "dataclass" and self.on("methods", 0.2):
+            for _ in range(r.choice([1, 1, 2])):
+                mk = r.random()
+                m = {"name": self.fresh("m"), "alias": None, "prop": r.random() < 0.3}
+                if mk < 0.35:
+                    m.update(ret=Prim("int"), expr=r.choice(["1", "len(repr(self)) * 0 + 7"]))
+                elif mk < 0.55:
+                    m.update(ret=Prim("str"), expr="'m'")
+                elif mk < 0.75:
+                    m.update(ret=opt(Prim("int")), expr=r.choice(["None", "3"]))
+                elif mk < 0.9:
+                    m.update(ret=Prim("int"), expr=r.choice(["Undefined", "5"]), undefined=True)
+                else:
+                    m.update(ret=Coll("list", Prim("str")), expr="['x', 'y']")
+                if r.random() < 0.3:
+                    m["alias"] = m["name"] + "Alias"
+                o.methods.append(m)
+        if kind == "dataclass" and self.on("fields_set", 0.12) and not o.frozen:
+            o.fields_set = True
+            for f in o.fields:
+                if f.has_default and not f.aggregate and r.random() < 0.2:
+                    f.default_as_set = True
         if kind == "dataclass" and self.on("dep_req", 0.12):
             normal = [f for f in fields if not f.aggregate and not f.skip_deser and not f.init_false and f.has_default and not f.required_md and not f.initvar]
             if len(normal) >= 2:
@@ -246,6 +271,12 @@ class Gen:
                 f.alias_override = False
         if self.on("field_cons", 0.12):
             self._field_cons(f, base)
+        if f.has_default and not f.undefined:
+            k2 = r.random()
+            if k2 < 0.08 and self.on("ser_default", 1):
+                f.ser_default = True
+            elif k2 < 0.16 and self.on("ser_if", 1):
+                f.ser_if = r.choice(["vf_is_falsy", "vf_is_negative"])
         if f.has_default:
             k = r.random()
             if k < 0.08 and self.on("required_md", 1):
